@@ -103,6 +103,11 @@ def one_dir(ctx, res, rng, d):
         for is_zoq, loc in ((False, ""), (True, ""), (False, "sub/"), (True, "sub/")):
             ext = ".zoq" if is_zoq else ".zo"
             lines, exps = ["# Scratch page" if not is_zoq else "# scratch (not a query)", ""], [None, None]
+            # pinned lines on every page: a link to a page that is missing at the root (but has a neighbour in sub/), alone and with
+            # company, and a target whose extension holds a digit
+            for line, exp in (("- see [[nosuch]] there", ["[[nosuch]]"]), ("o P1 both [[nosuch#top]], and [[notes.v2]].", ["[[nosuch#top]]", "[[notes.v2]]"])):
+                lines.append(line)
+                exps.append((exp, None))
             for _ in range(ctx.scale(40, 60) if loc == "" else 12):
                 line, exp, primary = gen_line(rng, lctx)
                 lines.append(line)
